@@ -174,6 +174,13 @@ def key_case(curve, d, Q, n, plen, encs):
             "pkcs8-v0-no-pubkey": rd.pkcs8(db, oid, None, version=0),
             "pkcs8-v1-inner-params": rd.pkcs8(db, oid, pbu, version=1,
                                               inner_params=True),
+            # RFC 5958 optional fields (documented as ignored by the reader)
+            "pkcs8-v0-attributes": rd.pkcs8(db, oid, pbu, version=0,
+                                            attributes=True),
+            "pkcs8-v2-publickey": rd.pkcs8(db, oid, None, version=1,
+                                           outer_public=pbu),
+            "pkcs8-v2-attributes-publickey": rd.pkcs8(
+                db, oid, pbu, version=1, attributes=True, outer_public=pbu),
         }
         for how, blob in foreign.items():
             try:
